@@ -244,3 +244,27 @@ Proof.
   - destruct Hr as (e' & He & _). discriminate.
   - discriminate.
 Qed.
+
+(* the same, spelled out for a normal return *)
+Theorem any_segmentation_spec lim o segs st a lo : max_queue lim = 0 ->
+  run_segs lim o init segs [] [] = (st, a, ROk lo) ->
+  match spec lim o (concat segs) with
+  | SAccept ms _ => lo = [] /\ idle st /\ delivered ms a
+  | SUpgraded ms rest =>
+    (lo = rest /\ upgraded st = true /\ payload st = None /\ delivered ms a) \/
+    (lo = [] /\ exists p cur old pre last,
+        payload st = Some p /\ pk p = PUntilEof /\ a = cur :: old /\ ms = pre ++ [last] /\
+        delivered pre old /\ r_msg cur = s_msg last /\ r_data cur = rest /\
+        r_eof cur = false /\ r_exc cur = None)
+  | SIncomplete ms _ => lo = [] /\ delivered_upto ms a
+  | SReject _ _ | SAsk _ _ => False
+  end.
+Proof.
+  intros Hq H. pose proof (refines_spec_any_segmentation lim o segs st a lo Hq H) as Hr.
+  destruct (spec lim o (concat segs)) as [ms sk|ms rest|ms rest|ms e|c t]; cbn in Hr.
+  - destruct Hr as (Hr & Hi & Hd). inversion Hr. auto.
+  - destruct Hr as [(Hr & Hrest)|(Hr & Hrest)]; inversion Hr; [left|right]; auto.
+  - destruct Hr as ([Hr|(e & Hr & _)] & Hd); [inversion Hr; auto|discriminate].
+  - destruct Hr as (e' & Hr & _). discriminate.
+  - discriminate.
+Qed.
